@@ -13,13 +13,16 @@ func init() {
 			{Name: "H_C18_self_zero", Tier: "quick", What: "l2 / l2sq distance of a finite vector to itself is 0; d<=3 (T2)", Covers: []string{"ran"}},
 			{Name: "H_C18_zero_rejected", Tier: "quick", What: "cosine Preprocess / PreprocessInPlace reject every all-(+-0) vector; d<=3", Covers: []string{"ran"}},
 			{Name: "H_C18_helpers", Tier: "quick", What: "Norm / Scale / Normalize / NormalizeInPlace definitions; d<=3, all float32", Covers: []string{"zero", "nonzero"}},
+			{Name: "H_C18_wide", Tier: "quick", What: "Norm / l2sq / l2 / cosine definitions, batch = element-wise, Preprocess agreement at d in {4,5,7,8,9,15,16,17,24,32,33,64}; GRID domain (all partial sums exact, so order-independent), bit-exact", Covers: []string{"ran"}},
+			{Name: "H_C18_wide_onehot", Tier: "quick", What: "one non-zero component at any position: Norm=|x|, l2sq=(x-y)^2, cosine=1-clamp(xy), unit vector +-1 there; d in {8,9,16,33}; GRID domain (T2)", Covers: []string{"ran"}},
+			{Name: "H_C18_wide_onehot_t", Tier: "thorough", What: "the same at d in {4,5,7,8,9,15,16,17,24,32,33,64}, every position up to d=17", Covers: []string{"ran"}},
 			{Name: "H_C18_grid_unit", Tier: "quick", What: "unit norm (1e-5) after cosine PreprocessInPlace; d<=2; GRID domain k/4, |k|<=32", Covers: []string{"zero", "nonzero"}},
 			{Name: "H_C18_grid_cos_self", Tier: "quick", What: "cosine self-distance in [0,1e-5]; d<=2; GRID domain", Covers: []string{"ran"}},
 			{Name: "H_C18_grid_triangle", Tier: "thorough", What: "l2 triangle inequality with 1e-5 relative slack; d=1; GRID domain", Covers: []string{"ran"}, Opts: interp.JobOpts{T2Timeout: 600}},
 		},
 		Lemmas: []string{"L_sq_abs_f32", "L_abs_sub_f32"},
-		Bounds: []string{"dimension 1..3 (1..2 for the grid rows)", "bit-exact laws: all float32 values incl. NaN, +-Inf, -0", "tolerance laws (unit norm, cosine self-distance, triangle): only on the dyadic grid {k/4 : -32<=k<32}"},
-		Outside: []string{"dimensions 4..512 (the kernels are single loops uniform in d; the solver does not make that induction)", "tolerance laws over the full float32 range (cvc5 > 120 s)", "invariance under positive scaling (T2 does not finish: 28 of 88 queries unknown at 60 s) — not claimed", "cosine = 1 - cos(angle) beyond the definitional identity with the clamped dot product"},
+		Bounds: []string{"dimension 1..3 for the all-float32 rows (1..2 for the tolerance rows); dimensions {4,5,7,8,9,15,16,17,24,32,33,64} on the grid domain for the definitional rows", "bit-exact laws: all float32 values incl. NaN, +-Inf, -0", "tolerance laws (unit norm, cosine self-distance, triangle): only on the dyadic grid {k/4 : -32<=k<32}"},
+		Outside: []string{"the dimensions up to 512 not listed (the kernels are single loops uniform in d; the solver does not make that induction)", "dimensions > 3 with non-grid components", "tolerance laws over the full float32 range (cvc5 > 120 s)", "invariance under positive scaling (T2 does not finish: 28 of 88 queries unknown at 60 s) — not claimed", "cosine = 1 - cos(angle) beyond the definitional identity with the clamped dot product"},
 		Assumptions: []string{
 			"float32(math.Sqrt(float64(x))) encoded as float32 fp.sqrt (innocuous double rounding, Figueroa 1995: 53 >= 2*24+2)",
 			"T1: float arithmetic uninterpreted; T2: cvc5 bit-precise IEEE-754 RNE",
